@@ -81,6 +81,13 @@ structure DddmpFile where
   nroots : Option Int := none
   rootids : Option (List Int) := none
   nodes : List DddmpNode := []
+  /-- header lines the parser accepts and the loader never reads (`DD/DddmpText.lean`):
+  `.ver name-a.b`, `.mode A` (any other mode is refused while parsing), `.dd name`
+  (`Parser.bdd_name`), `.add` (`Parser.algebraic_dd = True`: an ADD file is NOT refused) -/
+  ver : Option (String × Int × Int) := none
+  mode : Option String := none
+  ddname : Option String := none
+  add : Bool := false
 deriving Repr, Inhabited
 
 /-- `len(x) != n` where `n` may be `None` -/
@@ -485,6 +492,11 @@ def parseDddmpField (f : DddmpFile) (kv : String) : Option DddmpFile :=
     | "rootids" => (parseIntList v).map fun x => { f with rootids := some x }
     | "nodes" => ((splitList v ';').mapM parseNodeLine).map fun x => { f with nodes := x }
     | "text" => some f                    -- path of the text file, for the real code only
+    -- header lines the loader never reads
+    | "add" => some { f with add := v == "1" }
+    | "mode" => some { f with mode := some v }
+    | "dd" => some { f with ddname := some v }
+    | "ver" => some f
     | _ => none
   | _ => none
 
